@@ -1,6 +1,18 @@
 //! C07 — INVITE client: non-2xx finals are ACKed by the transaction, 2xx left to the user
+//!
+//! Generated: an INVITE (header shapes from pools, optional Via sent-by override) on a reliable | unreliable mock
+//! datagram transport, 1..5 scripted responses (status, To-tag, arrival offsets around 32 s / 64*T1, echoed headers
+//! optionally changed by the peer, packet source = the INVITE's destination | another address) and a transport
+//! fault plan: the `send` of the ACK answering a retransmitted final may fail with a transient io::Error.
+//! Oracle: a reference state machine over the response history says which response must be answered by an ACK
+//! transmission at its arrival instant (on the wire, or - when the fault plan fails that send - as a failed send
+//! call; a failed ACK does not excuse the ACKs for later retransmissions), what each ACK contains (Request-URI,
+//! Via, From, Call-ID, CSeq, Route of the INVITE; To of the response; destination of the INVITE whatever the
+//! response's source) and what `receive()` yields. Not asserted: To of an ACK for a later final with another
+//! To-tag, ACKs for 1xx/2xx arriving in Completed (optional), send faults on the INVITE or on the first ACK (not
+//! generated: they end the transaction with an io error, the statement is silent).
 
-use super::c05::{run_client, Res};
+use super::c05::{run_client_ex, Delivery, Res, OTHER_SOURCE};
 use crate::engine::*;
 use crate::refmodel::ref_tsx::TIMEOUT;
 use crate::world::wire::param_of;
@@ -25,6 +37,16 @@ pub struct Resp {
     /// bit 3 = top Via carries added received=/rport= parameters (what every RFC 3581 server does)
     #[serde(default)]
     pub mangle: u8,
+    /// the transport fails the `send` call made while this response is handled with a transient io::Error
+    /// (ECONNREFUSED after an ICMP port-unreachable, ENOBUFS ...): the ACK for THIS response is lost in the
+    /// transport. Only generated for responses that arrive after the first 3xx-6xx on an unreliable transport
+    /// (the ACK re-sent by the Completed state); a fault on the INVITE itself or on the first ACK ends the
+    /// transaction with an error and is outside the statement.
+    #[serde(default)]
+    pub send_fault: bool,
+    /// the datagram comes from another address/port than the INVITE was sent to
+    #[serde(default)]
+    pub other_source: bool,
 }
 
 /// the response as the peer sends it: `response_text` plus the case's header changes
@@ -108,25 +130,44 @@ pub fn strategy() -> BoxedStrategy<Case> {
         1u32..u32::MAX,
         prop::collection::vec(any::<u16>(), 0..4),
         prop::option::of(prop_oneof![Just("198.51.100.7:5099".to_string()), Just("nat.example.com".to_string()), Just("[2001:db8::1]:5060".to_string())]),
-        prop::collection::vec((any::<u16>(), 0u64..40_000, any::<bool>(), any::<u16>(), prop::option::of(0u8..3), prop_oneof![2 => Just(0u8), 1 => 0u8..16, 1 => prop::sample::select(vec![1u8, 2, 4, 8])]), 1..6),
+        prop::collection::vec(
+            (
+                (any::<u16>(), 0u64..40_000, any::<bool>(), any::<u16>(), prop::option::of(0u8..3), prop_oneof![2 => Just(0u8), 1 => 0u8..16, 1 => prop::sample::select(vec![1u8, 2, 4, 8])]),
+                prop_oneof![2 => Just(false), 1 => Just(true)],
+                prop_oneof![5 => Just(false), 1 => Just(true)],
+            ),
+            1..6,
+        ),
         any::<u8>(),
     )
         .prop_map(|(reliable, (us, fs, ts), call_id, cseq, rs, via_host_port, raw, rng)| {
             let mut t = 0;
-            let mut responses = vec![];
-            for (i, (osel, rnd, use_rnd, csel, to_tag, mangle)) in raw.into_iter().enumerate() {
+            let mut responses: Vec<Resp> = vec![];
+            // has a 3xx-6xx arrived while no 2xx had been seen (= the transaction is in Completed)
+            let mut completed = false;
+            let mut accepted = false;
+            for (i, ((osel, rnd, use_rnd, csel, to_tag, mangle), fault, other_source)) in raw.into_iter().enumerate() {
                 let off = if use_rnd { rnd } else { OFFSETS[pick_idx(osel, OFFSETS.len())] };
                 t += if i == 0 { off.min(31_000).max(1) } else { off };
                 // keep clear of the INVITE retransmission instants and of the 32 s / 64*T1 edges (ties are don't-care)
                 while [500u64, 1500, 3500, 7500, 15500, 31500].contains(&t) {
                     t += 1;
                 }
+                let code = CODES[pick_idx(csel, CODES.len())];
                 responses.push(Resp {
                     t_ms: t,
-                    code: CODES[pick_idx(csel, CODES.len())],
+                    code,
                     to_tag,
                     mangle,
+                    send_fault: fault && completed && !reliable,
+                    other_source,
                 });
+                if (200..300).contains(&code) && !completed {
+                    accepted = true;
+                }
+                if code >= 300 && !accepted {
+                    completed = true;
+                }
             }
             Case {
                 reliable,
@@ -185,11 +226,20 @@ pub fn check(case: &Case, out: &mut CaseOut) {
             (r.t_ms, f)
         })
         .collect();
-    let obs = run_client(
+    let delivery: Vec<Delivery> = case
+        .responses
+        .iter()
+        .map(|r| Delivery {
+            source: if r.other_source { Some(OTHER_SOURCE.parse().unwrap()) } else { None },
+            fail_send: r.send_fault,
+        })
+        .collect();
+    let obs = run_client_ex(
         true,
         case.reliable,
         request,
         responses,
+        delivery,
         vec![],
         horizon,
         case.rng as u64,
@@ -215,6 +265,8 @@ pub fn check(case: &Case, out: &mut CaseOut) {
         t: u64,
         to: Option<String>,
         optional: bool,
+        /// the transport fails the send of this ACK: it must be attempted, it cannot appear on the wire
+        faulted: bool,
     }
     let mut want_acks: Vec<WantAck> = vec![];
     let mut want_results: Vec<(u64, Res, bool)> = vec![]; // (time, result, optional)
@@ -235,6 +287,7 @@ pub fn check(case: &Case, out: &mut CaseOut) {
                 t: r.t_ms,
                 to: if same_to { Some(to_of(r)) } else { None },
                 optional: r.code < 300,
+                faulted: r.send_fault,
             });
         } else if let Some(a) = accepted_at {
             if r.t_ms >= a + TIMEOUT {
@@ -254,6 +307,7 @@ pub fn check(case: &Case, out: &mut CaseOut) {
                 t: r.t_ms,
                 to: Some(to_of(r)),
                 optional: false,
+                faulted: r.send_fault,
             });
         }
     }
@@ -285,10 +339,34 @@ pub fn check(case: &Case, out: &mut CaseOut) {
         out.fail("c07.ack/sent-without-final", "ACK sent although no final response arrived");
     }
 
-    // match ACK instants
+    // match ACK instants: one transmission (attempt) per received response, at the instant it arrived. An ACK
+    // whose send the fault plan fails shows up in `failed_sends` instead of on the wire.
+    let failed = &obs.failed_sends;
     let mut ai = 0;
+    let mut fi = 0;
     let mut timing_bad = None;
+    let mut fault_before = false; // an earlier ACK of this transaction was lost in the transport
+    let mut missing_after_fault = false;
     for w in &want_acks {
+        if w.faulted {
+            match failed.get(fi) {
+                Some(f) if f.0 == w.t => {
+                    fi += 1;
+                    fault_before = true;
+                }
+                _ if w.optional => {}
+                other => {
+                    timing_bad = Some(format!(
+                        "expected an ACK transmission attempt (failed by the transport) at {} ms, next failed send at {:?}",
+                        w.t,
+                        other.map(|f| f.0)
+                    ));
+                    missing_after_fault = fault_before;
+                    break;
+                }
+            }
+            continue;
+        }
         match acks.get(ai) {
             Some((s, _)) if s.t_ms == w.t => ai += 1,
             _ if w.optional => {}
@@ -298,6 +376,7 @@ pub fn check(case: &Case, out: &mut CaseOut) {
                     w.t,
                     other.map(|(s, _)| s.t_ms)
                 ));
+                missing_after_fault = fault_before;
                 break;
             }
         }
@@ -305,15 +384,36 @@ pub fn check(case: &Case, out: &mut CaseOut) {
     if timing_bad.is_none() && ai < acks.len() && (completed_at.is_some()) {
         timing_bad = Some(format!("extra ACK at {} ms", acks[ai].0.t_ms));
     }
+    if timing_bad.is_none() && fi < failed.len() {
+        timing_bad = Some(format!("extra (failed) transmission attempt at {} ms", failed[fi].0));
+    }
     if let Some(b) = timing_bad {
-        let locus = if want_acks.iter().filter(|w| !w.optional).count() <= 1 && acks.is_empty() {
+        let locus = if want_acks.iter().filter(|w| !w.optional).count() <= 1 && acks.is_empty() && failed.is_empty() {
             "first-missing"
         } else if case.reliable {
             "reliable"
+        } else if missing_after_fault {
+            // the transaction stopped answering retransmitted finals after a transient transport error
+            "once-per-response-after-send-fault"
         } else {
             "once-per-response"
         };
-        out.fail(format!("c07.ack/{locus}"), format!("{b}; all ACKs at {:?}", acks.iter().map(|(s, _)| s.t_ms).collect::<Vec<_>>()));
+        out.fail(
+            format!("c07.ack/{locus}"),
+            format!(
+                "{b}; all ACKs at {:?}, failed sends at {:?}",
+                acks.iter().map(|(s, _)| s.t_ms).collect::<Vec<_>>(),
+                failed.iter().map(|f| f.0).collect::<Vec<_>>()
+            ),
+        );
+    }
+    // a lost ACK was addressed like the INVITE
+    if let Some(inv) = &invite_sent {
+        for f in failed {
+            if f.2 != inv.dest {
+                out.fail("c07.ack/destination", format!("(failed) ACK transmission addressed to {}, INVITE went to {}", f.2, inv.dest));
+            }
+        }
     }
 
     // ACK contents
@@ -357,7 +457,7 @@ pub fn check(case: &Case, out: &mut CaseOut) {
     }
     // To of each ACK = To of the response it answers
     let mut ai = 0;
-    for w in &want_acks {
+    for w in want_acks.iter().filter(|w| !w.faulted) {
         if let Some((s, ack)) = acks.get(ai) {
             if s.t_ms == w.t {
                 if let Some(to) = &w.to {
@@ -442,6 +542,19 @@ pub fn check(case: &Case, out: &mut CaseOut) {
     if accepted_at.is_some() {
         out.class("2xx-final");
     }
+    if case.responses.iter().any(|r| r.other_source) {
+        out.class("response from another source address than the INVITE's destination");
+    }
+    if case.responses.iter().any(|r| r.other_source && r.code >= 300) && !acks.is_empty() {
+        out.class("ACK for a non-2xx final that came from another source address");
+    }
+    if !obs.failed_sends.is_empty() {
+        out.class("an ACK retransmission fails in the transport");
+        let first_fault = want_acks.iter().position(|w| w.faulted);
+        if first_fault.map_or(false, |p| want_acks[p + 1..].iter().any(|w| !w.optional && !w.faulted)) {
+            out.class("retransmitted final after a failed ACK retransmission");
+        }
+    }
     if !case.routes.is_empty() || tags.len() > 1 || retransmitted_final {
         out.nontrivial(case);
     }
@@ -464,11 +577,13 @@ pub fn property() -> Property {
     Property {
         fuzz: vec![],
         id: "C07",
-        rule: "cases = INVITE (Request-URI shapes incl. IPv6/params, From/To with display names, 0..3 Route values, optional Via sent-by override, random Call-ID/CSeq) x reliable/unreliable x 1..5 scripted responses (any class, To-tag none/3 tags, offsets around 32 s and 64*T1, echoed CSeq number / Call-ID / From / top-Via parameters optionally changed by the peer) under a paused clock. Non-trivial = INVITE carries a Route, or finals with different To-tags, or a retransmitted final; distinct by hash of the case.",
+        rule: "cases = INVITE (Request-URI shapes incl. IPv6/params, From/To with display names, 0..3 Route values, optional Via sent-by override, random Call-ID/CSeq) x reliable/unreliable x 1..5 scripted responses (any class, To-tag none/3 tags, offsets around 32 s and 64*T1, echoed CSeq number / Call-ID / From / top-Via parameters optionally changed by the peer, packet source = INVITE destination or another address, transient send failure of the ACK for a retransmitted final) under a paused clock. Non-trivial = INVITE carries a Route, or finals with different To-tags, or a retransmitted final; distinct by hash of the case.",
         assumptions: vec![
             "timers on tokio's paused clock (hook H2); wire read back with the independent WireMsg parser and with ezk's parse_complete",
             "the ACK for a later non-2xx with a different To-tag must be sent but its To is not asserted; ACKs triggered by 1xx/2xx arriving in Completed are optional",
             "responses never arrive exactly on the 32 s / 64*T1 edge",
+            "send faults hit only ACK retransmissions of the Completed state (unreliable transport): the failed call counts as the one ACK for that response, every other response within 32 s still needs its own ACK on the wire",
+            "the ACK goes to the INVITE's destination also when the response came from another source address",
         ],
         explanation: "sampled histories; header shapes from fixed pools",
         subs: vec![prop_sub("ack", strategy, 3000, 60000, check)],
